@@ -102,11 +102,91 @@ def pi():
     return SNum(PI)
 
 
+def _factors(t, out, coeff):
+    """flatten a product into its non-constant factors (with multiplicity) and a rational coefficient"""
+    if z3.is_rational_value(t) or z3.is_int_value(t):
+        coeff[0] *= t.as_fraction()
+        return
+    if z3.is_app(t):
+        k = t.decl().kind()
+        if k == z3.Z3_OP_MUL:
+            for c in t.children():
+                _factors(c, out, coeff)
+            return
+        if k == z3.Z3_OP_TO_REAL:
+            inner = t.arg(0)
+            if z3.is_int_value(inner) or (z3.is_app(inner) and inner.decl().kind() == z3.Z3_OP_MUL):
+                _factors(inner, out, coeff)
+                return
+        if k == z3.Z3_OP_POWER and z3.is_int_value(t.arg(1)) and 0 <= t.arg(1).as_long() <= 8:
+            for _ in range(t.arg(1).as_long()):
+                _factors(t.arg(0), out, coeff)
+            return
+    out.append(t)
+
+
+def _exact_sqrt(q):
+    """exact square root of a non-negative Fraction or None"""
+    import math
+    if q < 0:
+        return None
+    a, b = math.isqrt(q.numerator), math.isqrt(q.denominator)
+    if a * a == q.numerator and b * b == q.denominator:
+        from fractions import Fraction
+        return Fraction(a, b)
+    return None
+
+
+def sqrt_term(t):
+    """sqrt over the reals with the product rule applied when the term is built:  sqrt(c^2 * a * a * r) = |c| * |a| * sqrt(r).
+    True wherever the square root is defined; where it is not (negative argument: NaN in numpy, not modelled) it only fixes
+    which unconstrained value stands for it.  Makes  sqrt(dz^2 w) = dz sqrt(w)  a syntactic identity instead of a nonlinear
+    proof obligation."""
+    from fractions import Fraction
+    use("sqrt")
+    f = F["sqrt"]
+    t = to_real(t) if not z3.is_real(t) else t
+    fs, coeff = [], [Fraction(1)]
+    _factors(z3.simplify(t), fs, coeff)
+    if coeff[0] == 0:
+        return z3.RealVal(0)
+    groups = {}
+    for x in fs:
+        groups.setdefault(x.sexpr(), [x, 0])[1] += 1
+    outside, inside = [], []
+    for key in sorted(groups):
+        x, m = groups[key]
+        x = to_real(x) if not z3.is_real(x) else x
+        outside += [z3.If(x >= 0, x, -x)] * (m // 2)
+        if m % 2:
+            inside.append(x)
+    c = coeff[0]
+    r = _exact_sqrt(c)
+    if r is not None:
+        if r != 1:
+            outside.insert(0, z3.RealVal(str(r)))
+    else:
+        inside.insert(0, z3.RealVal(str(c)))
+    if inside:
+        arg = inside[0]
+        for x in inside[1:]:
+            arg = arg * x
+        outside.append(f(arg))
+    if not outside:
+        return z3.RealVal(1)
+    res = outside[0]
+    for x in outside[1:]:
+        res = res * x
+    return res
+
+
 def apply(name, x):
     """apply to scalar or array proxy"""
     from .arrays import SArr
     use(name)
     f = F[name]
+    if name == "sqrt":
+        f = sqrt_term
     if isinstance(x, SArr):
         old = x._elem
         k = x.kind
